@@ -41,7 +41,7 @@ type linst struct {
 var Watch func(s *Spec) func()
 
 type Built struct {
-	spec *Spec
+	spec   *Spec
 	lprog  []linst
 	labels map[int]int // label -> position in lprog
 	prog   seccomp.Program
